@@ -241,6 +241,14 @@ def step1 (w : W) (op impl : String) : W × String × Verdict :=
     let extra := (if implRes == "ok" then c03Block s b else []) ++ c05 ++ hc
     let (m, v) := finish w' impl expected (implDs.getD 0 "") (digest s') implRes (code r) extra
     (w', m, v)
+  | ["execfault", n, _] =>
+    -- an execution that fails after the unspent pool has processed the block (injected fault: HistoryDB.ParseBlock
+    -- fails) is rolled back as a whole: the block is refused and nothing the node reports has changed
+    let s := getNode w n
+    let rcode := if implRes == "ok" then "refused" else implRes
+    let expected := "R" ++ rcode ++ " " ++ digest s
+    let (m, v) := finish w impl expected (implDs.getD 0 "") (digest s) implRes rcode
+    (w, m, v)
   | ["give", n, hexes] =>
     let s := getNode w n
     -- blocks are separated by the token `|`
